@@ -122,6 +122,8 @@ theorem cpv_mapConns {s t : St} (f : Conn → Conn) (hf : ∀ c, (f c).id = c.id
   unfold St.enqueue; split <;> rfl
 @[simp] theorem cpv_dropAction (s : St) (t : AType) (o : Id) : cpv (s.dropAction t o) = cpv s := rfl
 @[simp] theorem cpv_removeFromQueue (s : St) (o : Id) : cpv (s.removeFromQueue o) = cpv s := rfl
+@[simp] theorem cpv_addCluster (s : St) (k : Id) : cpv (s.addCluster k) = cpv s := rfl
+@[simp] theorem cpv_freeCluster (s : St) (k : Id) : cpv (s.freeCluster k) = cpv s := rfl
 @[simp] theorem cpv_modify (s : St) (c : Id) (d : Bool) (e : EndSpec) : cpv (s.modify c d e) = cpv s := rfl
 @[simp] theorem cpv_addObst (s : St) (i : Id) (j a : Bool) : cpv (s.addObst i j a) = cpv s := rfl
 @[simp] theorem cpv_addPin (s : St) (p o : Id) (c : Nat) : cpv (s.addPin p o c) = cpv s := rfl
@@ -296,6 +298,10 @@ theorem cpOk_freeObsts {s : St} (h : CpOk s) (l : List Obst) :
     CpOk (l.foldl (fun s o => s.freeObstacle o.id) s) :=
   cpOk_congr h (cpv_foldl _ (fun s o => cpv_freeObstacle s o.id) l s)
 
+theorem cpOk_freeClusters {s : St} (h : CpOk s) (l : List Cluster) :
+    CpOk (l.foldl (fun s k => s.freeCluster k.id) s) :=
+  cpOk_congr h (cpv_foldl _ (fun s k => cpv_freeCluster s k.id) l s)
+
 /-! ### the operations -/
 
 theorem cpOk_step {s : St} (hcore : Core [] s) (h : CpOk s) (op : Op) (hl : LegalDoc s op = true) :
@@ -337,7 +343,7 @@ theorem cpOk_step {s : St} (hcore : Core [] s) (h : CpOk s) (op : Op) (hl : Lega
   | processTransaction => exact cpOk_congr h (by simp)
   | setTransactionUse b => exact cpOk_congr h rfl
   | deleteRouter =>
-    exact cpOk_congr (cpOk_freeObsts (cpOk_freeConns h _) _) (cpv_closeRouter _)
+    exact cpOk_congr (cpOk_freeClusters (cpOk_freeObsts (cpOk_freeConns h _) _) _) (cpv_closeRouter _)
   | rDelConn id =>
     dsimp only; split
     · exact cpOk_congr h rfl
@@ -348,6 +354,32 @@ theorem cpOk_step {s : St} (hcore : Core [] s) (h : CpOk s) (op : Op) (hl : Lega
     · exact cpOk_congr h (by simp)
   | rNewJunction id pin => exact cpOk_congr h (by simp)
   | rNewConn id => exact cpOk_addConn h id true
+  | newCluster id => exact cpOk_congr h rfl
+  | deleteCluster id =>
+    dsimp only; split
+    · exact cpOk_congr h rfl
+    · exact cpOk_congr h rfl
+  | setClusterPoly id =>
+    dsimp only; split
+    · exact cpOk_congr h rfl
+    · exact h
+  | touchConn c =>
+    dsimp only; split
+    · exact cpOk_congr h rfl
+    · exact cpOk_congr h (by simp)
+  | touchPin pin =>
+    dsimp only; split
+    · exact cpOk_congr h rfl
+    · exact cpOk_congr h (by simp)
+  | apiRouter => exact h
+  | apiConn c =>
+    dsimp only; split
+    · exact cpOk_congr h rfl
+    · exact h
+  | apiObst o =>
+    dsimp only; split
+    · exact cpOk_congr h rfl
+    · exact h
 
 theorem cpOk_run_from {s : St} (hcore : Core [] s) (h : CpOk s) (ops : List Op)
     (hl : legalFrom LegalDoc s ops = true) : CpOk (ops.foldl step s) := by
@@ -366,7 +398,7 @@ theorem checkpointsReleased_of {s : St} (h : CpOk s) (hal : s.alive = false) (ha
   refine ⟨hal, ?_⟩
   have hconns : s.conns = [] := by
     simp only [St.allocated, List.append_eq_nil_iff, List.map_eq_nil_iff] at ha
-    exact ha.1.2
+    exact ha.1.1.2
   intro v hv
   by_cases hf : v ∈ s.vfreed
   · exact hf
